@@ -6,6 +6,25 @@ head = open('/verif/tools/design_head.md').read()
 kf = json.load(open('/verif/known-findings.json'))
 seeds = [json.load(open(d)) for d in sorted(glob.glob('/verif/seeded/*/meta.json'))]
 fixlog = subprocess.check_output(['git', '-C', '/repo', 'log', '--format=%h %s', 'c7dbd94..HEAD']).decode().strip().split('\n')
+def _tiers():
+    """table of tier sizes: quick from the evidence files of the last clean run, thorough from tools/tier_numbers.json (copied from the last
+    full thorough sweep's summary lines by tools/tiernumbers.py)"""
+    import os
+    th = json.load(open('/verif/tools/tier_numbers.json')) if os.path.exists('/verif/tools/tier_numbers.json') else {}
+    rows = ["**Tiers as measured** (this sandbox, 16 cores, warm build caches; states = cases whose every step ran on the implementation, "
+            "transitions = implementation steps / probes judged; quick from the committed evidence files, thorough from the last full sweep):\n\n",
+            "| check | quick states | quick transitions | quick wall | thorough states | thorough transitions | thorough wall |\n|---|---|---|---|---|---|---|\n"]
+    for i in range(1, 20):
+        c = "C%02d" % i
+        try:
+            e = json.load(open('/verif/evidence/%s.json' % c))
+            q = (e['coverage'].get('states'), e['coverage'].get('transitions'), "%.0f s" % e.get('wall_s', 0))
+        except Exception:
+            q = ("-", "-", "-")
+        t_ = th.get(c, {})
+        rows.append("| %s | %s | %s | %s | %s | %s | %s |\n" % (c, q[0], q[1], q[2], t_.get('states', '-'), t_.get('transitions', '-'), t_.get('wall', '-')))
+    return "".join(rows)
+head = head.replace('%%TIERS%%', _tiers())
 t = [head]
 t.append("""
 ## 13. Genuine defects found on the pinned tree: fixes and known findings
@@ -34,12 +53,12 @@ def _unchanged(m):
     return st.startswith('none') or st.startswith('no change') or st.startswith('caught by')
 _rounds = {}
 for m in seeds:
-    r = m['id'][-1]
+    r = m.get('round') or (ord(m['id'][-1]) - 96)   # rounds 1-6: by suffix letter (a few properties skipped a round, so their letters lag by one)
     a = _rounds.setdefault(r, [0, 0])
     a[1] += 1
-    if 'strengthening' in m and _unchanged(m):
+    if m.get('caught_as_stood') is True or ('caught_as_stood' not in m and 'strengthening' in m and _unchanged(m)):
         a[0] += 1
-ROUND_STATS = ", ".join("round %d: %s of %d" % (ord(r) - 96, (str(v[0]) if r != 'a' else "all (after the round-1 strengthening listed below the table)"), v[1]) for r, v in sorted(_rounds.items()))
+ROUND_STATS = ", ".join("round %d: %s of %d" % (r, (str(v[0]) if r != 1 else "all (after the round-1 strengthening listed below the table)"), v[1]) for r, v in sorted(_rounds.items()))
 t.append("""
 ## 14. Seeded property-breaking changes and detection
 
@@ -52,8 +71,9 @@ and filed under `seeded/<id>/` (patch.diff, demo/, notes.md, meta.json). `tools/
 before the seed's summary was read (the honest 'caught unchanged?' answer), then with the current one; `tools/lane.sh run`
 without arguments is the regression over all filed seeds.
 
-Rounds (suffix a..f = round 1..6). The last column says whether the tier as it stood caught the seed. Per round, seeds caught
-without any change to the framework: %s. The misses are what drove the systematic families of section 12: every miss was
+Rounds: the suffix letter orders the seeds of one property (a..f = rounds 1..6 up to a lag of one for five properties that skipped a
+round; from round 7 on meta.json carries the round). The last column says whether the tier as it stood caught the seed. Per round,
+seeds caught by SOME registered quick check without any change to the framework (from round 7: by any check; before: by the property's own): %s. The misses are what drove the systematic families of section 12: every miss was
 turned into a dimension of a product (not into a copy of the seed's input), and every filed seed is caught by the current
 quick tier of its property.
 
